@@ -194,18 +194,51 @@ func StrategyByName(name string) (Strategy, error) {
 			return en[0]
 		}, nil
 	case "devdup":
-		// messages sent by party <arg> are delivered as soon as they exist and twice in a row (the second copy is
-		// what a fault case may alter: a deviating sender that replaces a message the recipient already holds)
+		// Party <arg> is the fastest one (its inbox is served first, its messages are delivered as soon as they exist)
+		// and every message it sends is delivered a second time - the copy a fault case may alter: a sender that
+		// replaces a message the recipient already holds.  The second copy is handed over when it is "ripe": the
+		// recipient is in the round that awaits the type and holds everything that round needs from the sender
+		// (so it has seen, and possibly already checked, the honest copy) but still waits for somebody else.
+		// Copies that never become ripe are delivered at the very end (inert).
 		return func(s *Session, en []Step, _ *rand.Rand) Step {
 			if st, ok := firstStart(en); ok {
 				return st
 			}
 			ds := deliveries(en)
 			for _, d := range ds {
-				if it := s.item(d.Item); it.From.G == arg {
-					if it.Count == 0 {
-						d.Op = "dup"
+				if it := s.item(d.Item); it.From.G == arg && it.Count == 0 {
+					d.Op = "dup"
+					return d
+				}
+			}
+			for _, d := range ds {
+				it := s.item(d.Item)
+				if it.From.G != arg || it.Count == 0 {
+					continue
+				}
+				if s.Round(it.To) != it.Round {
+					continue
+				}
+				w := s.Waiting(it.To)
+				holdsSender, waitsOther := true, false
+				for _, g := range w {
+					if g == arg {
+						holdsSender = false
+					} else {
+						waitsOther = true
 					}
+				}
+				if holdsSender && waitsOther {
+					return d
+				}
+			}
+			for _, d := range ds { // feed the fast party first
+				if it := s.item(d.Item); it.To.G == arg && it.From.G != arg {
+					return d
+				}
+			}
+			for _, d := range ds {
+				if it := s.item(d.Item); it.From.G != arg {
 					return d
 				}
 			}
